@@ -56,9 +56,19 @@ ResultIsSpecState == res.ev = "result" =>
    /\ \A v \in V : RPrev[v] = prev[v] /\ (md[v] # MaxI => RDist[v] = dist[v])
 \* ... and satisfy C18 as stated, judged on the logged values alone
 RevSeq(s) == [i \in 1..Len(s) |-> s[Len(s) + 1 - i]]
+\* the path EdgeToPath returns for v: for a reachable vertex a source-to-v path of existing edges whose weights
+\* sum to the reported distance; for an unreachable one a vertex list that does not contain the source
+PathOK(v) ==
+  LET p == res.paths[v]
+      md == TLCEval(MinDist) IN
+  IF md[v] # MaxI
+  THEN /\ Len(p) >= 1 /\ p[1] = src /\ p[Len(p)] = v
+       /\ \A i \in 1..(Len(p) - 1) : w[p[i]][p[i + 1]] # None
+       /\ RDist[v] = FoldSet(LAMBDA i, acc : acc + w[p[i]][p[i + 1]], 0, 1..(Len(p) - 1))
+  ELSE \A i \in DOMAIN p : p[i] # src
 C18 == res.ev = "result" =>
    /\ Correct(RDist, RPrev)
-   /\ \A v \in V : res.paths[v] = RevSeq(Chain(RPrev, v, N + 1))      \* EdgeToPath follows the predecessor map
+   /\ \A v \in V : PathOK(v)
 
 Accepted == TLCGet("stats").diameter - 1 = Len(Trace)
 Pos == [line |-> l, sid |-> 0]
